@@ -25,10 +25,17 @@ type c01Case struct {
 	// SplitImages: every worker runs the history and recovers only its share of the crash images (long histories)
 	SplitImages bool `json:"split_images"`
 	Rotation    bool `json:"rotation"` // needs the binary built with the tiny WAL file size (see c01.py)
+	// HoldTxn: the index's asynchronous transaction-file remover never gets to run before the crash (its Remove calls are
+	// deferred for good), so crash images hold every transaction file of the history, not only the newest
+	HoldTxn bool `json:"hold_txn,omitempty"`
 }
 
 func (c c01Case) key() string {
-	return fmt.Sprintf("N=%d %s", c.Partitions, strings.Join(c.Ops, " "))
+	k := fmt.Sprintf("N=%d %s", c.Partitions, strings.Join(c.Ops, " "))
+	if c.HoldTxn {
+		k += " [transaction files not yet removed]"
+	}
+	return k
 }
 
 // c01Apply executes one op; DM drops measurement m through the shard's drop path.
@@ -64,6 +71,10 @@ func c01History(rep *kit.Report, scratch string, c c01Case) {
 	defer func() { _ = v.Close() }()
 	rec := &vRecorder{root: root, imgRoot: imgRoot, seen: map[string]bool{}}
 	vRec = rec
+	if c.HoldTxn {
+		fileops.VerifDeferRemove = func(p string) bool { return strings.HasPrefix(p, root) && strings.Contains(p, "/txn/") }
+		defer func() { fileops.VerifDeferRemove = nil }()
+	}
 	// models[i] = reference after i acknowledged ops (pinned by a read right after the ack)
 	models := []vModel{{}}
 	opKinds := []string{}
@@ -101,6 +112,7 @@ func c01History(rep *kit.Report, scratch string, c c01Case) {
 	}
 	rec.on = false
 	vRec = nil
+	fileops.VerifDeferRemove = nil // recoveries run with the real remover
 	// the live shard is closed only after the images were frozen; closing is not part of the history
 	_ = v.Close()
 	rep.Count("ns_live", int64(time.Since(tLive)))
@@ -380,6 +392,11 @@ func TestVerifC01(t *testing.T) {
 				// crash during recovery (depth 2): quick = one representative history, thorough = all of length <= 2
 				d2 := (kit.Thorough() && l <= 2) || (l == 1 && names[0] == "We" && n == 2)
 				add(names, n, d2)
+			}
+			if l == maxLen {
+				// the same history with the index's transaction-file remover pending until the crash (one partition count:
+				// the index does not depend on it); shorter histories are prefixes of these
+				jobs = append(jobs, c01Case{Ops: append([]string(nil), names...), Partitions: 1, HoldTxn: true})
 			}
 			return true
 		})
